@@ -53,6 +53,39 @@ type flow struct {
 type evaluator struct {
 	c  *ClusterT
 	ns map[string]NsT
+	// hist: earlier states whose changes were only seen by the pod event handlers. Those handlers add an address to the ipsets
+	// the pod newly belongs to and remove nothing before the next full synchronisation: with hist set, ipset membership (peer
+	// sets and a policy's target set) is the union over these states and the current one, everything else is the current state.
+	hist []*ClusterT
+}
+
+// versions returns the pod behind an endpoint in the current state and in the earlier states (matched by address).
+func (e *evaluator) versions(ep endpoint) []*PodT {
+	var out []*PodT
+	if ep.pod != nil {
+		out = append(out, ep.pod)
+	}
+	if ep.ip == "" {
+		return out
+	}
+	for _, h := range e.hist {
+		for i := range h.Pods {
+			if h.Pods[i].IP == ep.ip {
+				out = append(out, &h.Pods[i])
+			}
+		}
+	}
+	return out
+}
+
+// inTargetSet: is the endpoint's address a member of the policy's target ipset?
+func (e *evaluator) inTargetSet(p *PolicyT, ep endpoint) bool {
+	for _, v := range e.versions(ep) {
+		if e.selected(p, v) {
+			return true
+		}
+	}
+	return false
 }
 
 func (e *evaluator) selected(p *PolicyT, pod *PodT) bool {
@@ -130,21 +163,20 @@ func (e *evaluator) peersMatch(p *PolicyT, r *RuleT, ep endpoint, d Dev) bool {
 			}
 			continue
 		}
-		if ep.pod == nil {
-			continue
-		}
-		switch {
-		case !pe.Pod.Nil && pe.Ns.Nil:
-			if pe.Pod.matches(ep.pod.Labels) && (d.A || ep.pod.Ns == p.Ns) {
-				return true
-			}
-		case pe.Pod.Nil && !pe.Ns.Nil:
-			if pe.Ns.matches(e.ns[ep.pod.Ns].Labels) {
-				return true
-			}
-		case !pe.Pod.Nil && !pe.Ns.Nil:
-			if pe.Pod.matches(ep.pod.Labels) && (d.C || pe.Ns.matches(e.ns[ep.pod.Ns].Labels)) {
-				return true
+		for _, v := range e.versions(ep) {
+			switch {
+			case !pe.Pod.Nil && pe.Ns.Nil:
+				if pe.Pod.matches(v.Labels) && (d.A || v.Ns == p.Ns) {
+					return true
+				}
+			case pe.Pod.Nil && !pe.Ns.Nil:
+				if pe.Ns.matches(e.ns[v.Ns].Labels) {
+					return true
+				}
+			case !pe.Pod.Nil && !pe.Ns.Nil:
+				if pe.Pod.matches(v.Labels) && (d.C || pe.Ns.matches(e.ns[v.Ns].Labels)) {
+					return true
+				}
 			}
 		}
 	}
@@ -195,7 +227,7 @@ func (e *evaluator) grants(P *PodT, dir string, f flow, d Dev) bool {
 		if useIn {
 			for j := range p.Ingress {
 				r := &p.Ingress[j]
-				if e.peersMatch(p, r, f.src, d) && e.selected(p, f.dst.pod) && portsMatch(r, f.proto, f.dport) {
+				if e.peersMatch(p, r, f.src, d) && e.inTargetSet(p, f.dst) && portsMatch(r, f.proto, f.dport) {
 					return true
 				}
 			}
@@ -203,7 +235,7 @@ func (e *evaluator) grants(P *PodT, dir string, f flow, d Dev) bool {
 		if useEg {
 			for j := range p.Egress {
 				r := &p.Egress[j]
-				if e.selected(p, f.src.pod) && e.peersMatch(p, r, f.dst, d) && portsMatch(r, f.proto, f.dport) {
+				if e.inTargetSet(p, f.src) && e.peersMatch(p, r, f.dst, d) && portsMatch(r, f.proto, f.dport) {
 					return true
 				}
 			}
@@ -253,6 +285,8 @@ func (e *evaluator) allowed(f flow, d Dev) bool {
 
 type c16Case struct {
 	Cluster ClusterT `json:"cluster"`
+	// Then: the cluster after some pod changes (same namespaces and policies) which reach galaxy as pod events only
+	Then ClusterT `json:"then,omitempty"`
 }
 
 var c16Blocks = append(append([]struct {
@@ -275,6 +309,10 @@ func genC16() *rapid.Generator[c16Case] {
 					}
 				}
 			}
+		}
+		if rapid.Bool().Draw(t, "withEvents") {
+			c.Then = mutateCluster(t, c.Cluster, GenOpts{}, true)
+			c.Then.Policies = c.Cluster.Policies
 		}
 		return c
 	})
@@ -301,16 +339,66 @@ func checkC16(c c16Case, r *vcore.Rec) *vcore.Failure {
 	s.Load(c.Cluster)
 	s.PM.Run()
 	s.PM.Run() // the periodic full sync runs again and again; the verdicts are taken after the second pass
+	firstKnown, f := judgeC16(&c.Cluster, ipt, sets, r, "after two full syncs")
+	if f != nil {
+		return f
+	}
+	// pod events (relabel, new address, new pod, deletion) handled by the event handlers, no full sync: the installed rules must
+	// follow the cluster
+	if len(c.Then.Pods) > 0 || len(c.Then.Namespaces) > 0 {
+		cur := c.Cluster
+		states := []*ClusterT{&c.Cluster}
+		for _, e := range diffEvents(c.Cluster, c.Then) {
+			if e.kind != "podUpsert" && e.kind != "podDelete" {
+				continue
+			}
+			cur = applyEvent(cur, e)
+			snap := cur
+			states = append(states, &snap)
+			s.Load(cur)
+			if e.kind == "podUpsert" {
+				old := e.pod
+				if e.old != nil {
+					old = *e.old
+				}
+				_ = s.PM.UpdatePod(old.toK8s(), e.pod.toK8s())
+			} else {
+				_ = s.PM.DeletePod(e.pod.toK8s())
+			}
+			r.Logf("event %s %s/%s", e.kind, e.pod.Ns, e.pod.Name)
+		}
+		r.Class("judged_after_pod_events")
+		known2, f := judgeC16(&cur, ipt, sets, r, "after pod events", states[:len(states)-1]...)
+		if f != nil {
+			return f
+		}
+		if firstKnown == nil {
+			firstKnown = known2
+		}
+	}
+	if firstKnown != nil {
+		return firstKnown
+	}
+	r.Class("agrees_with_kubernetes_semantics")
+	return nil
+}
+
+// judgeC16 compares the verdict of the installed rules with the reference evaluator for every flow of the universe of cl.
+// hist are earlier states of the cluster whose changes reached galaxy as pod events only: the event handlers add what a pod newly
+// belongs to and leave what it no longer belongs to until the next full synchronisation, so a flow the rules still accept is not a
+// mismatch if it was allowed in one of those states; a flow that is allowed now must be accepted.
+func judgeC16(cl *ClusterT, ipt *nf.IPTables, sets *nf.IPSet, r *vcore.Rec, phase string, hist ...*ClusterT) (*vcore.Failure, *vcore.Failure) {
 	tb := ipt.Snapshot("filter")
-	ev := &evaluator{c: &c.Cluster, ns: map[string]NsT{}}
-	for _, n := range c.Cluster.Namespaces {
+	ev := &evaluator{c: cl, ns: map[string]NsT{}}
+	mixed := &evaluator{c: cl, ns: ev.ns, hist: hist}
+	for _, n := range (*cl).Namespaces {
 		ev.ns[n.Name] = n
 	}
 	// flow universe
 	var eps []endpoint
-	for i := range c.Cluster.Pods {
-		if c.Cluster.Pods[i].IP != "" {
-			eps = append(eps, endpoint{ip: c.Cluster.Pods[i].IP, pod: &c.Cluster.Pods[i]})
+	for i := range (*cl).Pods {
+		if (*cl).Pods[i].IP != "" {
+			eps = append(eps, endpoint{ip: (*cl).Pods[i].IP, pod: &(*cl).Pods[i]})
 		}
 	}
 	ext := map[string]bool{"8.8.8.8": true, "192.168.10.7": true, "192.168.10.200": true, "192.168.20.5": true, "192.168.30.1": true,
@@ -328,7 +416,7 @@ func checkC16(c c16Case, r *vcore.Rec) *vcore.Failure {
 	}
 	sort.Slice(eps, func(i, j int) bool { return eps[i].ip < eps[j].ip })
 	ports := map[int]bool{9999: true}
-	for _, p := range c.Cluster.Policies {
+	for _, p := range (*cl).Policies {
 		for _, rl := range append(append([]RuleT{}, p.Ingress...), p.Egress...) {
 			for _, po := range rl.Ports {
 				ports[po.Port] = true
@@ -342,13 +430,14 @@ func checkC16(c c16Case, r *vcore.Rec) *vcore.Failure {
 	sort.Ints(portList)
 	accepts, drops, flows := 0, 0, 0
 	isolatedLocal := false
-	for i := range c.Cluster.Pods {
-		p := &c.Cluster.Pods[i]
+	for i := range (*cl).Pods {
+		p := &(*cl).Pods[i]
 		if ev.isolated(p, "ingress") || ev.isolated(p, "egress") {
 			isolatedLocal = true
 		}
 	}
 	known := map[string]int{}
+	staleAccepts := 0
 	var firstKnown *vcore.Failure
 	for _, src := range eps {
 		for _, dst := range eps {
@@ -366,7 +455,7 @@ func checkC16(c c16Case, r *vcore.Rec) *vcore.Failure {
 					flows++
 					got, err := nf.Verdict(tb, sets, nf.Packet{Hook: "FORWARD", Src: net.ParseIP(src.ip), Dst: net.ParseIP(dst.ip), Proto: proto, DPort: dport})
 					if err != nil {
-						return vcore.Failf("c16:walker", "the installed rules cannot be evaluated: %v", err)
+						return nil, vcore.Failf("c16:walker", "the installed rules cannot be evaluated: %v", err)
 					}
 					want := ev.allowed(f, Dev{})
 					if got == "ACCEPT" {
@@ -385,10 +474,23 @@ func checkC16(c c16Case, r *vcore.Rec) *vcore.Failure {
 							break
 						}
 					}
+					if expl == "" && got == "ACCEPT" && len(hist) > 0 {
+						// ipset members left from an earlier state (no full synchronisation since)
+						if mixed.allowed(f, Dev{}) {
+							staleAccepts++
+							continue
+						}
+						for _, d := range devOrder[1:] {
+							if mixed.allowed(f, d) {
+								expl = d.String()
+								break
+							}
+						}
+					}
 					desc := fmt.Sprintf("%s %s(%s) -> %s(%s) port %d: installed rules say %s, Kubernetes semantics say allowed=%v", proto, src.ip, podName(src),
 						dst.ip, podName(dst), dport, got, want)
 					if expl == "" {
-						return vcore.Failf("c16:mismatch", "%s; no recorded deviation explains it\nfilter table:\n%s%s", desc,
+						return nil, vcore.Failf("c16:mismatch", "%s: %s; no recorded deviation explains it\nfilter table:\n%s%s", phase, desc,
 							tb.Filtered(isGLX), sets.Dump(isGLX))
 					}
 					sig := "c16:deviation:" + expl
@@ -404,6 +506,7 @@ func checkC16(c c16Case, r *vcore.Rec) *vcore.Failure {
 		}
 	}
 	vcore.Extra("flows", int64(flows))
+	vcore.Extra("flows_still_accepted_from_an_earlier_state", int64(staleAccepts))
 	for k, n := range known {
 		vcore.Extra("flows_"+k, int64(n))
 	}
@@ -412,11 +515,7 @@ func checkC16(c c16Case, r *vcore.Rec) *vcore.Failure {
 	if isolatedLocal && accepts > 0 && drops > 0 {
 		r.NonTrivial()
 	}
-	if firstKnown != nil {
-		return firstKnown
-	}
-	r.Class("agrees_with_kubernetes_semantics")
-	return nil
+	return firstKnown, nil
 }
 
 func podName(e endpoint) string {
